@@ -1492,12 +1492,11 @@ def evaluate__serialize(self: XPathFunction, context: ta.ContextType = None) -> 
     method_ = kwargs.get('method', 'xml')
     if method_ in ('xml', 'html', 'text'):
         etree_module = context.etree
-        if context.namespaces:
-            for pfx, uri in context.namespaces.items():
+        for pfx, uri in (context.namespaces or self.parser.namespaces).items():
+            try:
                 etree_module.register_namespace(pfx, uri)
-        else:
-            for pfx, uri in self.parser.namespaces.items():
-                etree_module.register_namespace(pfx, uri)
+            except ValueError:
+                pass  # a prefix that the library reserves for itself (e.g. ns1)
 
         return serialize_to_xml(self[0].select(context), etree_module, **kwargs)
 
